@@ -205,6 +205,24 @@ def patient_entity_new(given):
     return ev
 
 
+def patient_entity_remove(which):
+    """Remove context states of the patient context by writing the entity without them in a descriptor transaction
+    (the documented way to delete context states). which: 'first' | 'first-two' | 'all-but-last' | 'all'."""
+    def ev(p):
+        _need(p, PAT)
+        ent = p.mdib.entities.by_handle(PAT)
+        handles = sorted(ent.states)
+        need = {'first': 1, 'first-two': 2, 'all-but-last': 2, 'all': 1}[which]
+        if len(handles) < need:
+            raise Disabled(f'{len(handles)} patient context states')
+        victims = {'first': handles[:1], 'first-two': handles[:2], 'all-but-last': handles[:-1], 'all': handles}[which]
+        for h in victims:
+            ent.states.pop(h)
+        with p.mdib.descriptor_transaction() as tr:
+            tr.write_entity(ent)
+    return ev
+
+
 def location_extra(assoc):
     """An additional, not associated location context state (legal: e.g. a pre-associated next location)."""
     def ev(p):
@@ -473,6 +491,10 @@ EVENTS = [
     ('patient-new(A)', patient_new('A')),
     ('patient-new(B)', patient_new('B')),
     ('patient-entity-new(C)', patient_entity_new('C')),
+    ('patient-entity-remove(first)', patient_entity_remove('first')),
+    ('patient-entity-remove(first-two)', patient_entity_remove('first-two')),
+    ('patient-entity-remove(all-but-last)', patient_entity_remove('all-but-last')),
+    ('patient-entity-remove(all)', patient_entity_remove('all')),
     ('patient-update-first(X)', patient_update_first('X')),
     ('patient-update-all', patient_update_all),
     ('patient-disassociate', patient_disassociate),
